@@ -118,7 +118,7 @@ func ScriptGen(o ScriptOpts) *rapid.Generator[Script] {
 			s.Creator = rapid.SampledFrom(o.Creators).Draw(t, "creator")
 		}
 		n := rapid.IntRange(o.MinOps, o.MaxOps).Draw(t, "nops")
-		kinds := []string{"rowitems", "rowitems", "rowitems", "sep", "appendnew", "newrow", "newrowcap", "newrowsized", "rowadd", "rowadd", "addrow", "addrow"}
+		kinds := []string{"rowitems", "rowitems", "rowitems", "sep", "appendnew", "newrow", "newrowcap", "newrowsized", "rowadd", "rowadd", "addrow", "addrow", "zerorow"}
 		if o.SimpleOnly {
 			kinds = []string{"rowitems", "rowitems", "rowitems", "sep"}
 		}
@@ -165,6 +165,8 @@ func ScriptGen(o ScriptOpts) *rapid.Generator[Script] {
 				rows = append(rows, rk{attached: true, sep: true})
 			case "appendnew":
 				rows = append(rows, rk{attached: true})
+			case "zerorow":
+				rows = append(rows, rk{attached: true, sep: true}) // like a separator it refuses Add
 			case "newrow", "newrowsized":
 				rows = append(rows, rk{})
 			case "newrowcap":
